@@ -2,7 +2,7 @@
 """run the relevant checks against each harmless (semantics-preserving) refactoring: every one must exit 0"""
 import json, os, subprocess, sys, time, concurrent.futures as cf
 R = os.path.dirname(os.path.dirname(os.path.abspath(__file__)))
-REL = {"H01": ["C17", "C03", "C06"], "H02": ["C06", "C13", "C09"], "H03": ["C06", "C01", "C10"], "H04": ["C04", "C06", "C13"], "H05": ["C03", "C11", "C12"], "H06": ["C07", "C15"], "H07": ["C08"], "H08": ["C01", "C14"], "H09": ["C08", "C07"], "H10": ["C02", "C01"], "H11": ["C05", "C06", "C19"], "H12": ["C11", "C12"]}
+REL = {"H01": ["C17", "C03", "C06"], "H02": ["C06", "C13", "C09"], "H03": ["C06", "C01", "C10"], "H04": ["C04", "C06", "C13"], "H05": ["C03", "C11", "C12"], "H06": ["C07", "C15"], "H07": ["C08"], "H08": ["C01", "C14"], "H09": ["C08", "C07"], "H10": ["C02", "C01"], "H11": ["C05", "C06", "C19"], "H12": ["C11", "C12"], "H13": ["C03", "C15"], "H14": ["C03", "C15", "C12"], "H15": ["C11", "C12", "C03"], "H16": ["C11", "C12"], "H17": ["C11", "C12"], "H18": ["C16"], "H19": ["C16"], "H20": ["C16"], "H21": ["C16"], "H22": ["C01", "C14"], "H23": ["C14", "C07"], "H24": ["C17", "C08", "C20"], "H25": ["C08", "C07"], "H26": ["C05", "C19"]}
 def run(h, prop):
     wt = f"/tmp/tm/{h}.{prop}"
     subprocess.run(["git", "-C", "/repo", "worktree", "prune"]); subprocess.run(["rm", "-rf", wt])
